@@ -9,7 +9,7 @@ PID = "C15"
 MODULES = ["GroupbyVerif.Props.C15", "GroupbyVerif.LoopBridge.FindNth", "GroupbyVerif.LoopBridge.FirstLast"]
 RULE = ("kernel level: _find_nth / _find_first_or_last_n on random interleavings of <= 3 groups with null codes, n from 0 to beyond the largest "
         "group, negative n, forward and backward, plus groups of 32766..32770, 65534..65538 and 70000 rows in BOTH tiers; public level: "
-        "GroupBy.head/tail/nth(keep_input_index=True) with 1-D and multi-column values, default / non-monotonic / duplicated index, sort on/off; "
+        "GroupBy.head/tail/nth(keep_input_index=True) with 1-D and multi-column values, default / non-monotonic / duplicated index, sort on/off, float keys or (30 %) categorical keys with 1-12 unused categories / boolean keys; three keys of 1.2-1.3 million rows with a group that has fewer than n rows in the last stretch; "
         "non-trivial = at least 2 rows in some group; distinct = distinct (codes, n, op, level, index kind)")
 ASSUMPTIONS = ["codes < ngroups", "row identity at the public level is established through unique per-row values"]
 MAX_WORKERS = 8
